@@ -55,6 +55,19 @@ var c16Anchors = map[string]c16Anchor{
 		})
 		return found
 	}},
+	// the SUBSCRIBE handler: mentions *packets.SubscribePacket and calls TopicManager.subscribe
+	"processSubscribe": {"", "processSubscribe", func(e *c16Env, g *flow.Func, fd *ast.FuncDecl) bool {
+		mentions := false
+		ast.Inspect(fd, func(n ast.Node) bool {
+			if x, ok := n.(ast.Expr); ok {
+				if tv, ok := g.Info.Types[x]; ok && tv.IsType() && tv.Type != nil && tv.Type.String() == "*"+c16Packets+".SubscribePacket" {
+					mentions = true
+				}
+			}
+			return !mentions
+		})
+		return mentions && c16BodyCalls(g, func(call *ast.CallExpr) bool { return calleeIs(g, call, "(*"+mq+".TopicManager).subscribe") })
+	}},
 	// the cache+storage lookup of a session
 	"sessionGet": {"SessionManager", "get", func(e *c16Env, g *flow.Func, fd *ast.FuncDecl) bool {
 		return c16RecvIs(fd, "SessionManager") &&
@@ -90,12 +103,52 @@ func (e *c16Env) anchor(key string) *flow.Func {
 	}
 	var f *flow.Func
 	switch key {
-	case "handleConn": // the function that runs the read loop of a new connection
+	case "handleConn": // the top of the connect path: the function from which the read loop of a new
+		// connection is reached by synchronous calls and that no other such function calls synchronously
 		rl := e.anchor("readLoop")
 		if rl != nil {
-			f = e.pick(key, "Broker", "handleConn", func(g *flow.Func, fd *ast.FuncDecl) bool {
-				return c16BodyCalls(g, func(call *ast.CallExpr) bool { return e.callTo(g, call, rl) })
-			})
+			runs := func(g *flow.Func) bool {
+				for _, h := range syncReach(e, g, 3) {
+					if c16BodyCallsSync(h, func(call *ast.CallExpr) bool { return e.callTo(h, call, rl) }) {
+						return true
+					}
+				}
+				return false
+			}
+			in := funcsByRole(e.c, mq, func(g *flow.Func, fd *ast.FuncDecl) bool { return runs(g) })
+			var tops []*flow.Func
+			for _, g := range in {
+				called := false
+				for _, h := range in {
+					if h.Body == g.Body {
+						continue
+					}
+					if c16BodyCallsSync(h, func(call *ast.CallExpr) bool { return e.callTo(h, call, g) }) {
+						called = true
+					}
+				}
+				if !called {
+					tops = append(tops, g)
+				}
+			}
+			switch {
+			case len(tops) == 1:
+				f = tops[0]
+				if fd, ok := f.Node.(*ast.FuncDecl); ok {
+					f = funcOf(e.pkg, fd)
+				}
+			case len(tops) == 0:
+				f = fn(e.c, mq, "Broker", "handleConn")
+			default:
+				for _, g := range tops {
+					if fd, ok := g.Node.(*ast.FuncDecl); ok && fd.Name.Name == "handleConn" {
+						f = g
+					}
+				}
+				if f == nil {
+					e.c.Errorf("anchor handleConn: %d functions start a connection's read loop and none is called handleConn", len(tops))
+				}
+			}
 		}
 	case "chooser": // the function that decides between the previous and a new session
 		get, nw := e.anchor("sessionGet"), e.anchor("sessionNew")
@@ -230,4 +283,100 @@ func (e *c16Env) declOfAnchor(key string) *ast.FuncDecl {
 		return fd
 	}
 	return nil
+}
+
+// objFunc returns the *types.Func of a declaration.
+func (e *c16Env) objFunc(fd *ast.FuncDecl) *types.Func {
+	fo, _ := e.pkg.TypesInfo.Defs[fd.Name].(*types.Func)
+	return fo
+}
+
+// cidParams returns the string parameters of the same-package functions reachable from f that are
+// bound to a client id at every call site seen in that reach.
+func (e *c16Env) cidParams(f *flow.Func, depth int) map[types.Object]bool {
+	good, bad := map[types.Object]bool{}, map[types.Object]bool{}
+	for round := 0; round < 3; round++ {
+		inspectReach(f, depth, func(g *flow.Func, n ast.Node) bool {
+			call, ok := n.(*ast.CallExpr)
+			if !ok {
+				return true
+			}
+			fo, ok := c16FnOK(g, call)
+			if !ok {
+				return true
+			}
+			d := e.decls[fo]
+			if d == nil || d.Type.Params == nil {
+				return true
+			}
+			idx := 0
+			for _, fld := range d.Type.Params.List {
+				for _, nm := range fld.Names {
+					if po := g.Info.Defs[nm]; po != nil && idx < len(call.Args) {
+						if b, ok := po.Type().Underlying().(*types.Basic); ok && b.Kind() == types.String {
+							if e.isCidReach(g, call.Args[idx]) || good[c16Obj(g, call.Args[idx])] {
+								good[po] = true
+							} else {
+								bad[po] = true
+							}
+						}
+					}
+					idx++
+				}
+			}
+			return true
+		})
+	}
+	for o := range bad {
+		delete(good, o)
+	}
+	return good
+}
+
+// c16BodyCallsSync is c16BodyCalls without the calls under `go` (and inside function literals).
+func c16BodyCallsSync(g *flow.Func, pred func(call *ast.CallExpr) bool) bool {
+	found := false
+	ast.Inspect(g.Body, func(n ast.Node) bool {
+		switch x := n.(type) {
+		case *ast.GoStmt, *ast.FuncLit:
+			return false
+		case *ast.CallExpr:
+			if pred(x) {
+				found = true
+			}
+		}
+		return !found
+	})
+	return found
+}
+
+// syncReach is reach restricted to synchronous calls (no `go`, no function literals).
+func syncReach(e *c16Env, f *flow.Func, depth int) []*flow.Func {
+	out := []*flow.Func{f}
+	seen := map[*ast.BlockStmt]bool{f.Body: true}
+	frontier := []*flow.Func{f}
+	for d := 0; d < depth && len(frontier) > 0; d++ {
+		var next []*flow.Func
+		for _, g := range frontier {
+			g := g
+			ast.Inspect(g.Body, func(n ast.Node) bool {
+				switch x := n.(type) {
+				case *ast.GoStmt, *ast.FuncLit:
+					return false
+				case *ast.CallExpr:
+					if fo, ok := c16FnOK(g, x); ok {
+						if fd := e.decls[fo]; fd != nil && !seen[fd.Body] {
+							seen[fd.Body] = true
+							h := funcOf(e.pkg, fd)
+							out = append(out, h)
+							next = append(next, h)
+						}
+					}
+				}
+				return true
+			})
+		}
+		frontier = next
+	}
+	return out
 }
